@@ -69,6 +69,40 @@ Theorem C05_xml_desc_normal : forall text d,
 Proof. exact xml_desc_normal. Qed.
 Print Assumptions C05_xml_desc_normal.
 
+(* LINE SPLITTING.  All per-line statements model the reader's line splitting (SchemaLoaderWiki._open_file:
+   readlines() / split(LF)) as splitting at U+000A only -- NOT at U+0085, U+2028, U+2029, VT, FF, FS, GS, RS,
+   which are ordinary characters of the text class.  Under that model: the lines the reader sees are exactly
+   the lines that were written, whatever other code points they hold, and a written tag line never holds
+   an LF (so it is one line).  The assumption itself is tied to the code by the harness clause
+   lines-split-only-at-LF (the lines the real reader delivers for every saved MediaWiki text = its
+   LF-separated lines) and by the correspondence kind 'lines'; it is tested, not proved. *)
+Theorem C05_wiki_lines_split_only_at_lf : forall (l : str) (ls : list str),
+  Forall (fun x => memb ch_nl x = false) (l :: ls) ->
+  open_file_lines (join [ch_nl] (l :: ls)) = l :: ls.
+Proof. exact open_file_lines_join. Qed.
+Print Assumptions C05_wiki_lines_split_only_at_lf.
+
+Theorem C05_written_line_has_no_lf : forall disallowed lvl n a d line,
+  name_ok n = true -> desc_text_ok d = true ->
+  wiki_text_ok (format_tag_attributes disallowed a) = true ->
+  write_tag_line disallowed n (S lvl) a d = Some line ->
+  memb ch_nl line = false.
+Proof. exact written_line_lf_free. Qed.
+Print Assumptions C05_written_line_has_no_lf.
+
+(* Names.  name_ok asks for no outer white space.  The name class of the compliance check admits every
+   non-ASCII character, also blanks (U+00A0, U+2028, U+0085 ...): a name ENDING in one is kept by the XML and
+   TSV readers of the current code (xml_read_name false) but cannot be expressed in a MediaWiki line --
+   finding C05-F5, refuted statement below.  With fix-F5 (xml_read_name true) the hypothesis is an invariant
+   of loaded schemas. *)
+Theorem C05_xml_name_not_normal_refuted : exists text, no_outer_ws (xml_read_name false text) = false.
+Proof. exact xml_name_not_normal_before. Qed.
+Print Assumptions C05_xml_name_not_normal_refuted.
+
+Theorem C05_xml_name_normal_after_fix : forall text, no_outer_ws (xml_read_name true text) = true.
+Proof. exact xml_name_normal. Qed.
+Print Assumptions C05_xml_name_normal_after_fix.
+
 (* the same line round trip for both versions of the reader, with the description class as an explicit
    hypothesis (desc_ok adds: non-empty, no outer blanks) and the version's own reserved-word test *)
 Theorem C05_wiki_line_roundtrip_both :
@@ -100,10 +134,11 @@ Print Assumptions C05_xml_desc_not_normal_before_refuted.
 (* C05-F4, repaired: a unit class row written without its properties (a standard unit class that holds
    library units, unmerged save) is read back as a bare name and, once tagged with the library, is exactly
    the placeholder HedSchemaUnitClassSection._check_if_duplicate accepts -- for every content of the entry *)
-Theorem C05_tsv_stub_row : forall strip_lib n a d library,
+Theorem C05_tsv_stub_row : forall (fixed5 strip_lib : bool) (n : str) (a : attrs) (d : option str) (library : str),
+  (if fixed5 then no_outer_ws n else true) = true ->
   endswith s_dash_hash n = false ->
   exists a',
-    tsv_read_row (tsv_write_entry_row true strip_lib false n a d) = Ok (n, a', None)
+    tsv_read_row fixed5 (tsv_write_entry_row true strip_lib false n a d) = Ok (n, a', None)
     /\ unit_class_stub (tag_with_library library a') = true.
 Proof. exact tsv_stub_row_fixed. Qed.
 Print Assumptions C05_tsv_stub_row.
@@ -112,7 +147,7 @@ Print Assumptions C05_tsv_stub_row.
 Theorem C05_tsv_stub_row_unfixed_refuted :
   exists n a library,
     attr_ok a = true /\ endswith s_dash_hash n = false /\
-    exists a', tsv_read_row (tsv_write_entry_row false true false n a None) = Ok (n, a', None)
+    exists a', tsv_read_row false (tsv_write_entry_row false true false n a None) = Ok (n, a', None)
                /\ unit_class_stub (tag_with_library library a') = false.
 Proof. exact tsv_stub_row_unfixed_refuted. Qed.
 Print Assumptions C05_tsv_stub_row_unfixed_refuted.
@@ -121,11 +156,12 @@ Print Assumptions C05_tsv_stub_row_unfixed_refuted.
    no hedId, which travels in its own column) is read back as the same name, the attributes the TSV
    writer keeps (never hedId/annotationProperty, inLibrary unless merging) and the description.
    The cell layer (pandas to_csv/read_csv quoting) is outside the model: finding C05-F2 lives there. *)
-Theorem C05_tsv_row_roundtrip : forall (strip_lib : bool) (n : str) (a : attrs) (d : option str),
+Theorem C05_tsv_row_roundtrip : forall (fixed5 strip_lib : bool) (n : str) (a : attrs) (d : option str),
+  (if fixed5 then no_outer_ws n else true) = true ->      (* with fix-F5 the reader strips the name cell *)
   attr_ok a = true -> dict_get s_hedId a = None -> tsv_desc_ok d = true ->
   memb ch_slash n = false -> endswith [ch_slash; ch_hash] n = false ->
   endswith [ch_hash] n = false -> endswith s_dash_hash n = false ->
-  tsv_read_row (tsv_write_tag_row strip_lib n a d)
+  tsv_read_row fixed5 (tsv_write_tag_row strip_lib n a d)
   = Ok (n, filter (fun kv => negb (attribute_disallowed_df strip_lib (fst kv))) a, d).
 Proof. exact tsv_row_roundtrip. Qed.
 Print Assumptions C05_tsv_row_roundtrip.
